@@ -71,7 +71,8 @@ class RefLink:
 
             def _err(conn, exc):
                 if not self.ready.done():
-                    self.ready.set_exception(exc)
+                    self.ready.set_exception(
+                        exc or asyncssh.ConnectionLost('closed'))
                     self.ready.exception()
 
             self.conn = asyncssh.SSHServerConnection(loop, self.options,
